@@ -11,4 +11,6 @@ for P in "$@"; do
   /verif/tools/show.py $P | grep "^REPLAY\|^FAILED" | cut -c1-260 | head -8
 done
 git -C /repo checkout -- .
+# the evidence files now describe a run on the seeded tree: put the committed ones back
+git -C /verif checkout -- evidence 2>/dev/null
 git -C /repo status --short | head -3
